@@ -22,7 +22,7 @@ ASSUMPTIONS = ["point type / smooth attribute parsing by quick-xml and norad's a
 NAMES = ["move", "line", "offcurve", "curve", "qcurve"]
 ERR = {"0": "accepted", "1": "UnexpectedMove", "2": "UnexpectedPointAfterOffCurve", "3": "UnexpectedSmooth",
        "4": "TooManyOffCurves", "5": "TrailingOffCurves", "6": "unreachable!() arm", "7": "accepted-but-changed",
-       "8": "other error", "9": "panic", "?": "missing"}
+       "8": "other error", "9": "panic", "A": "verdict depends on XML attribute order", "?": "missing"}
 
 
 def pretty(digits):
@@ -121,11 +121,11 @@ def run(ctx, known, built):
     for n in range(maxlen + 1):
         exp = open(os.path.join(out, "exh_%d.txt" % n)).read()
         for idx, c in enumerate(exp):
-            if c in "79":
+            if c in "79A":
                 s = nth_seq(idx, n)
                 ctx.violations.append({"sequence": s, "points": pretty(s), "implementation": ERR[c]})
     for idx, c in enumerate(rexp):
-        if c in "79":
+        if c in "79A":
             ctx.violations.append({"sequence": cases[idx], "points": pretty(cases[idx]), "implementation": ERR[c]})
     # de-duplicate violations by sequence, shortest first
     seen = set()
